@@ -47,8 +47,9 @@ impl<C: Cursor> Cursor for ConcatenatingCursor<C> {
             key,
             timestamp: u64::MAX,
         };
-        // Binary search for the first cursor whose last key is at or after `key`.  An empty
-        // cursor, or one whose keys are all less than `key`, cannot hold the answer.
+        // Binary search for the first cursor whose last key is at or after `key`.  A cursor whose
+        // keys are all less than `key` cannot hold the answer.  An empty cursor says nothing about
+        // where `key` falls, so the bisection stops there and the scan below takes over.
         let mut left = 0usize;
         let mut right = self.cursors.len() - 1;
         while left < right {
@@ -60,20 +61,22 @@ impl<C: Cursor> Cursor for ConcatenatingCursor<C> {
                 Some(last) if last >= kref => {
                     right = mid;
                 }
-                _ => {
+                Some(_) => {
                     left = mid + 1;
+                }
+                None => {
+                    break;
                 }
             }
         }
         self.reposition(left)?;
         self.cursors[self.position].seek(key)?;
-        // If nothing in this cursor is at or after `key`, the answer is the first entry of a later
-        // cursor.
+        // If nothing in this cursor is at or after `key`, the answer is the first entry at or
+        // after `key` of a later cursor.
         while self.cursors[self.position].key().is_none() && self.position + 1 < self.cursors.len()
         {
             self.reposition(self.position + 1)?;
-            self.cursors[self.position].seek_to_first()?;
-            self.cursors[self.position].next()?;
+            self.cursors[self.position].seek(key)?;
         }
         Ok(())
     }
